@@ -158,9 +158,8 @@ def rule_recurrence(ctx, F):
     amap = F.amap
     length_t = kernels.term(length_e, amap)
     # invariant prv + cur == 1 lets us write everything over cur@prev
-    inv = {prv_var + '@prev': sub(C(1), V(cur_var + '@prev'))}
-
-    def split(idx_e):
+    def split(idx_e, sfx='@prev'):
+        inv = {prv_var + sfx: sub(C(1), V(cur_var + sfx))}
         # replace the opaque product atoms: rebuild with explicit row selector
         # the index has the shape  R*length + rest ; R in {1 - cur@prev (current), 1 - prv@prev = cur@prev (previous)}
         found = None
@@ -178,6 +177,13 @@ def rule_recurrence(ctx, F):
         if rest_e is None:
             return None
         rest = kernels.term(abstract(rest_e, table), amap)
+        if sfx == '@last':
+            # after the loop the toggles hold the values of the last iteration: cur_var selects the last written row
+            if st == V(cur_var + sfx):
+                return 'cur', rest
+            if st == sub(C(1), V(cur_var + sfx)):
+                return 'prev', rest
+            return None
         if st == sub(C(1), V(cur_var + '@prev')):
             return 'cur', rest
         if st == V(cur_var + '@prev'):
@@ -280,8 +286,27 @@ def rule_recurrence(ctx, F):
     _equiv_cases(ctx, 'R-REC', F.file, F.name, 'rolling-buffer row length', lt, want_len, F.lang, 'row length', F.store[4].line)
     F.length_t = lt
     F.off_cur = off_cur
+    F.off_full = off_full
     F.cur_var = cur_var
     F.split = split
+    F.split_last = lambda e: split(_last_abstract(F, e), '@last')
+    off_atom = off_cur[1][0][0] if (sym.is_lin(off_cur) and len(off_cur[1]) == 1) else None
+    F.off_var = off_atom[:-4] if off_atom and off_atom.endswith('@cur') else None
+
+    def expand_last(t):
+        if F.off_var is None:
+            return t
+        full_last = sym.subst(off_full, {'i': sub(V('L1'), C(1))})
+        return sym.subst(t, {F.off_var + '@last': full_last})
+    F.expand_last = expand_last
+
+    def expand_cur(t):
+        mp = {}
+        for a in sym.atoms(t):
+            if a in inv_table:
+                mp[a] = kernels.term(inv_table[a], amap)
+        return sym.subst(t, mp) if mp else t
+    F.expand_cur = expand_cur
     # row reset before use: a loop in the row prologue storing inf over [row*length, row*length+length)
     ok = False
     for ev in F.row_pre.events:
@@ -307,6 +332,10 @@ def rule_recurrence(ctx, F):
                     F.max_step_expr = part[3]
     ctx.check(okg, 'R-REC', F.file, F.name, 'max_step guard', 'no guard of the form `d > max_step -> skip cell` (same comparator in every copy) before the DP store', F.inner_line)
     ctx.sample({'kernel': F.name, 'predecessors': sorted((list(k), v) for k, v in got.items()), 'offset': sym.show(off_cur)[:200]})
+
+
+def _last_abstract(F, e):
+    return e
 
 
 def abstract(e, table):
@@ -462,3 +491,398 @@ def _truthy(e):
 
 def _falsy(e):
     return e in (('bool', False), ('num', 0))
+
+
+# ----------------------------------------------------------------------------------------------------- R-PSI / R-CLAMP
+PSI_DOM = [V('PSI1B'), V('PSI1E'), V('PSI2B'), V('PSI2E'), sub(V('L1'), V('PSI1B')), sub(V('L1'), V('PSI1E')),
+           sub(V('L2'), V('PSI2B')), sub(V('L2'), V('PSI2E'))]
+PSI_BOX = dict(BOX)
+PSI_BOX.update({'PSI1B': range(0, 6), 'PSI1E': range(0, 6), 'PSI2B': range(0, 6), 'PSI2E': range(0, 6), 'L1': range(1, 7), 'L2': range(1, 7)})
+
+
+def _conj(path):
+    """Flatten a path (tuple of conditions) into atomic conjuncts."""
+    out = []
+
+    def go(c):
+        if c[0] == 'bin' and c[1] == 'and':
+            go(c[2])
+            go(c[3])
+        else:
+            out.append(c)
+    for c in path:
+        go(c)
+    return out
+
+
+def _has_cmp(conj, amap, op, left, right, dom=None):
+    """Some conjunct is `l op r` with term(l) == left and term(r) == right (after normalising direction)."""
+    flip = {'<': '>', '>': '<', '<=': '>=', '>=': '<=', '==': '==', '!=': '!='}
+    for c in conj:
+        if c[0] == 'bin' and c[1] in flip:
+            try:
+                l, r = kernels.term(c[2], amap), kernels.term(c[3], amap)
+            except sym.Unsupported:
+                continue
+            for (o, a, b) in ((c[1], l, r), (flip[c[1]], r, l)):
+                if o == op and _teq(a, left, dom) and _teq(b, right, dom):
+                    return True
+    return False
+
+
+def _teq(a, b, dom=None):
+    if a == b:
+        return True
+    if dom is None:
+        return False
+    return sym.equivalent(a, b, dom, box=PSI_BOX)[0] == 'equal'
+
+
+def rule_psi(ctx, F):
+    arr = F.arr
+    amap = F.amap
+    if F.split is None:
+        ctx.undecided('R-PSI', F.name, 'recurrence facts unavailable')
+        return
+    dom_w = BASE_DOM + ([sub(V('W'), C(1))] if True else [])
+    # (1) first-row prefix: for x in [0, PSI2B + 1): arr[x] = 0 in the prologue, on row 0 (previous row of i = 0)
+    found = None
+    for ev in F.prologue.events:
+        if ev[0] == 'loop' and ev[2].k == 'for':
+            lp = ev[2]
+            for st in lp.body:
+                if st.k == 'assign' and st.target[0] == 'idx' and st.target[1] == ('var', arr) and subst_expr(st.value, ev[3]) == ('num', 0):
+                    found = (lp, st, ev[3])
+    if found is None:
+        ctx.violation('R-PSI', F.file, F.name, 'psi_2b prologue', 'no loop zeroing the relaxed prefix of the first row', F.outer_line)
+    else:
+        lp, st, envp = found
+        lo = kernels.term(subst_expr(lp.lo, envp), amap)
+        hi = kernels.term(subst_expr(lp.hi, envp), amap)
+        if lp.d.get('inclusive'):
+            hi = add(hi, C(1))
+        idx_ok = st.target[2] == ('var', lp.var)
+        ok = lo == C(0) and hi == add(V('PSI2B'), C(1)) and idx_ok
+        ctx.check(ok, 'R-PSI', F.file, F.name, 'psi_2b prologue',
+                  'the first-row relaxation must zero positions [0, psi_2b + 1) (columns -1..psi_2b-1 of series 2); found [%s, %s) index %s'
+                  % (sym.show(lo), sym.show(hi), fmt(st.target[2])), lp.line)
+        F.psi2b_hi = hi
+        F.psi2b_line = lp.line
+    # (2) first column: store 0 at (current row, position 0) guarded by psi_1b != 0, j_lo == 0, i < psi_1b
+    cand = [e for e in F.row_pre.events if e[0] == 'store' and e[2][1] == ('var', arr) and e[3] == ('num', 0)]
+    if len(cand) != 1:
+        ctx.violation('R-PSI', F.file, F.name, 'psi_1b first column', 'expected one guarded store of 0 into the first column of the current row, found %d' % len(cand), F.outer_line)
+    else:
+        e = cand[0]
+        sp = F.split(e[2][2])
+        conj = _conj(e[1])
+        lo_t, _ = _rename_prev(F.lo)
+        ok_pos = sp is not None and sp[0] == 'cur' and sp[1] == C(0)
+        ok_i = _has_cmp(conj, amap, '<', V('i'), V('PSI1B'))
+        ok_lo = False
+        for c in conj:
+            if c[0] == 'bin' and c[1] == '==':
+                for a, b in ((c[2], c[3]), (c[3], c[2])):
+                    if b == ('num', 0):
+                        try:
+                            ta, _ = _rename_prev(kernels.term(a, amap))
+                        except sym.Unsupported:
+                            continue
+                        if _teq(ta, lo_t, _fulldom(F)):
+                            ok_lo = True
+        ctx.check(ok_pos and ok_i and ok_lo, 'R-PSI', F.file, F.name, 'psi_1b first column',
+                  'first-column relaxation must store 0 at (row i, column -1) iff i < psi_1b and the band starts at column 0 '
+                  '(position ok=%s, `i < psi_1b` ok=%s, `j_lo == 0` ok=%s)' % (ok_pos, ok_i, ok_lo), e[4].line)
+    # (3) last column: running minimum over cell (i, j_hi - 1) when j_hi == L2 and L1 - 1 - i <= psi_1e
+    hit = None
+    for v in F.carried:
+        val = F.penv.get(v)
+        if val is None:
+            continue
+        nv = norm_minmax(val)
+        for sub_ in walk_expr(nv):
+            if sub_[0] == 'min' and ('var', v + '@prev') in sub_[1]:
+                others = [x for x in sub_[1] if x != ('var', v + '@prev')]
+                if len(others) == 1 and others[0][0] == 'idx' and others[0][1] == ('var', arr):
+                    hit = (v, nv, others[0])
+    if hit is None:
+        ctx.violation('R-PSI', F.file, F.name, 'psi_1e last column', 'no running minimum over the last-column cell of each row', F.outer_line)
+    else:
+        v, nv, cell = hit
+        F.psi_short_var = v
+        # reaching definitions: the index may only depend on row quantities
+        stale = sorted({x[1] for x in walk_expr(cell[2]) if x[0] == 'var' and (x[1].endswith('@out') or x[1].endswith('@in'))})
+        ctx.check(not stale, 'R-PSI', F.file, F.name, 'psi_1e candidate cell index',
+                  'the last-column candidate is read through %s, the value left behind by the column loop: it is stale when the last in-band '
+                  'cell of the row was skipped (max_step `continue`, prune `break`, empty range); the Python engine reads the explicit cell (i, j_hi - 1)'
+                  % stale, F.outer_line)
+        if not stale:
+            sp = F.split(cell[2])
+            okc = False
+            if sp is not None and sp[0] == 'cur':
+                col = sub(add(sp[1], F.off_cur), C(1))
+                okc = _teq(F.expand_cur(col), sub(F.hi, C(1)), _fulldom(F))
+            ctx.check(okc, 'R-PSI', F.file, F.name, 'psi_1e candidate cell', 'the last-column candidate must be cell (i, j_hi - 1)', F.outer_line)
+        # guards
+        conds = []
+        for sub_ in walk_expr(nv):
+            if sub_[0] == 'cond':
+                conds.append(sub_[1])
+        conj = _conj(conds)
+        ok1 = _has_cmp(conj, amap, '<=', sub(sub(V('L1'), C(1)), V('i')), V('PSI1E'))
+        ok2 = False
+        for c in conj:
+            if c[0] == 'bin' and c[1] == '==':
+                try:
+                    a, b = kernels.term(c[2], amap), kernels.term(c[3], amap)
+                except sym.Unsupported:
+                    continue
+                if (_teq(a, F.hi, _fulldom(F)) and b == V('L2')) or (_teq(b, F.hi, _fulldom(F)) and a == V('L2')):
+                    ok2 = True
+        ctx.check(ok1 and ok2, 'R-PSI', F.file, F.name, 'psi_1e guards',
+                  'the last-column relaxation must consider row i iff len(s1) - 1 - i <= psi_1e and the band reaches the last column '
+                  '(`l1-1-i <= psi_1e` ok=%s, `j_hi == l2` ok=%s)' % (ok1, ok2), F.outer_line)
+
+
+def rule_clamp(ctx, F):
+    """Psi-derived index ranges into the band-sized rolling buffer stay inside it (bounds obligations with witness)."""
+    if F.length_t is None:
+        ctx.undecided('R-CLAMP', F.name, 'buffer facts unavailable')
+        return
+    dom = BASE_DOM[:2] + PSI_DOM
+    # (a) prologue: positions [0, psi2b_hi) must be < 2*length
+    if F.psi2b_hi is not None:
+        size = scale(F.length_t, 2)
+        for (lab, hi, d), (_, sz, _) in zip(_wcases(F, F.psi2b_hi), _wcases(F, size)):
+            # violated iff hi - 1 >= size feasible
+            viol = sub(sub(hi, C(1)), sz)     # >= 0 means out of bounds
+            w = _find(viol, dom + d)
+            inst = '%s psi_2b prologue within 2*length [%s]' % (F.name, lab)
+            if w is None:
+                ctx.held('R-CLAMP', inst)
+            else:
+                ctx.violation('R-CLAMP', F.file, F.name, 'psi_2b prologue range',
+                              'the first-row relaxation writes positions [0, %s) into a buffer of 2*length = %s entries without clamping: '
+                              'at %s it writes position %s of %s' % (sym.show(hi), sym.show(sz)[:120], _fmtw(w), sym.evaluate(hi, w) - 1, sym.evaluate(sz, w)),
+                              F.psi2b_line, facts={'witness': w})
+                break
+    # (b) epilogue last-row scan: lowest position inside the row must be >= 0
+    scan = None
+    for ev in F.epilogue.events:
+        if ev[0] == 'loop' and ev[2].k == 'for':
+            lp = ev[2]
+            reads = [x for st in walk_stmts(lp.body) for e in _exprs(st) for x in reads_of(e, F.arr)]
+            if reads:
+                scan = ('loop', lp, ev[3], reads[0])
+    if scan is None:
+        # python: slice arr[a:b]
+        for ev in F.epilogue.events:
+            if ev[0] in ('return', 'store') and ev[2 if ev[0] == 'return' else 3] is not None:
+                for x in walk_expr(ev[2 if ev[0] == 'return' else 3]):
+                    if x[0] == 'idx' and x[1] == ('var', F.arr) and x[2][0] == 'slice':
+                        scan = ('slice', x[2], None, None)
+    if scan is None:
+        ctx.violation('R-CLAMP', F.file, F.name, 'psi_2e scan', 'no last-row relaxation scan found in the epilogue', F.outer_line)
+        return
+    amap = F.amap
+    table = F.abs_table or {}
+    last = {}
+    for a in list(table.values()):
+        pass
+    if scan[0] == 'loop':
+        _, lp, envp, rd = scan
+        env2 = dict(envp)
+        env2.pop(lp.var, None)
+        idx = subst_expr(rd[2], env2)
+        lo_e = subst_expr(lp.lo, envp)
+        pos_lo_e = subst_expr(idx, {lp.var: lo_e})
+    else:
+        pos_lo_e = scan[1][1]
+    sp = F.split_last(norm_minmax(pos_lo_e))
+    if sp is None:
+        ctx.undecided('R-CLAMP', '%s psi_2e scan start' % F.name, 'unrecognised index %s' % fmt(pos_lo_e)[:160])
+        return
+    row, rest = sp     # rest: position inside the row, over skip@last
+    # skip@last is the band lower limit of the last row (or 0): substitute the definition with i = L1 - 1
+    rest_full = F.expand_last(rest)
+    done = False
+    for (lab, r, d) in _wcases(F, rest_full):
+        w = _find(sub(C(-1), r), dom + d)      # -1 - r >= 0  <=> r < 0
+        inst = '%s psi_2e scan start >= row start [%s]' % (F.name, lab)
+        if w is None:
+            ctx.held('R-CLAMP', inst)
+        elif not done:
+            done = True
+            ctx.violation('R-CLAMP', F.file, F.name, 'psi_2e scan range',
+                          'the last-row relaxation scans back psi_2e cells from the last column without clamping to the band: at %s the scan starts at '
+                          'in-row position %s (before the row / before the buffer)' % (_fmtw(w), sym.evaluate(r, w)), F.outer_line, facts={'witness': w})
+
+
+def _fulldom(F):
+    return BASE_DOM + PSI_DOM + ([V('SC')] if True else []) + ([sub(V('W'), C(1))] if F.lang != 'c' else [V('W')])
+
+
+def _exprs(st):
+    from ..ir import stmt_exprs
+    return stmt_exprs(st)
+
+
+def _wcases(F, t):
+    if F.lang == 'c':
+        yield 'window>=1', t, [sub(V('W'), C(1))]
+        yield 'window off', sym.subst(t, {'W': C(0)}), []
+    else:
+        yield 'window>=1', t, [sub(V('W'), C(1))]
+
+
+def _find(viol, dom):
+    """Integer valuation with all dom >= 0 and viol >= 0, or None (box search on the extracted terms)."""
+    ats = sorted(sym.atoms(viol) | set().union(*[sym.atoms(d) for d in dom]))
+    box = {'L1': range(1, 11, 3), 'L2': range(1, 11, 3), 'W': range(1, 4), 'PSI1B': range(0, 1), 'PSI1E': range(0, 1),
+           'PSI2B': range(0, 10), 'PSI2E': range(0, 10), 'i': range(0, 1)}
+    need = sym.atoms(viol)
+    from itertools import product
+    ats = [a for a in ats if a in need or a in ('L1', 'L2')]
+    ranges = [box.get(a, range(0, 4)) for a in ats]
+    for vals in product(*ranges):
+        val = dict(zip(ats, vals))
+        for a in ('PSI1B', 'PSI1E', 'PSI2B', 'PSI2E', 'W', 'i'):
+            val.setdefault(a, 0)
+        if all(sym.evaluate(d, val) >= 0 for d in dom) and sym.evaluate(viol, val) >= 0:
+            return {a: val[a] for a in ats}
+    return None
+
+
+def _fmtw(w):
+    return ', '.join('%s=%s' % kv for kv in sorted(w.items()))
+
+
+# ----------------------------------------------------------------------------------------------------- R-DOM
+def _calls(e):
+    return [(dotted(x[1]) or '', x) for x in walk_expr(e) if x[0] == 'call']
+
+
+def kernel_kind(D):
+    """'euclidean' when the point distance takes a root / absolute value, else 'squared' (inferred, not from the name)."""
+    for nm, c in _calls(D):
+        if nm.split('.')[-1] in ('sqrt', 'fabs', 'abs'):
+            return 'euclidean'
+    return 'squared'
+
+
+def _conv_class(e, raw_atoms):
+    """How a threshold expression is derived from the raw setting: 'squared' (pow(x,2) / x*x), 'identity', 'inner_val', or None."""
+    kinds = set()
+    for x in walk_expr(e):
+        if x[0] == 'call':
+            nm = (dotted(x[1]) or '').split('.')[-1]
+            if nm == 'pow' and len(x[2]) == 2 and x[2][1] == ('num', 2) and _mentions(x[2][0], raw_atoms):
+                kinds.add('squared')
+        if x[0] == 'bin' and x[1] == '*' and x[2] == x[3] and _mentions(x[2], raw_atoms):
+            kinds.add('squared')
+        if x[0] == 'bin' and x[1] == '**' and x[3] == ('num', 2) and _mentions(x[2], raw_atoms):
+            kinds.add('squared')
+    if kinds:
+        return 'squared'
+    if _mentions(e, raw_atoms):
+        return 'identity'
+    return None
+
+
+def _mentions(e, names):
+    for x in walk_expr(e):
+        if x[0] == 'attr' and x[2] in names:
+            return True
+        if x[0] == 'var' and x[1] in names:
+            return True
+    return False
+
+
+def rule_dom_c(ctx, F):
+    """C kernels: thresholds live in the domain of the accumulated costs, the result is converted exactly once."""
+    if F.D is None:
+        ctx.undecided('R-DOM', F.name, 'recurrence facts unavailable')
+        return
+    kind = kernel_kind(F.D)
+    F.kind = kind
+    want = 'squared' if kind == 'squared' else 'identity'
+    items = [('max_step', F.max_step_expr, {'max_step'}), ('penalty', F.penalty_expr, {'penalty'}), ('max_dist', F.max_dist_expr, {'max_dist'})]
+    for nm, e, raw in items:
+        if e is None:
+            ctx.undecided('R-DOM', '%s %s' % (F.name, nm), 'threshold expression not found')
+            continue
+        cls = _conv_class(e, raw)
+        if cls is None:
+            ctx.undecided('R-DOM', '%s %s' % (F.name, nm), 'threshold does not derive from settings->%s' % nm)
+            continue
+        ctx.check(cls == want, 'R-DOM', F.file, F.name, '%s conversion' % nm,
+                  'the point distance of this kernel is %s, so accumulated costs are %s; the %s threshold compared/added to them is %s'
+                  % ('|x-y| / sqrt' if kind == 'euclidean' else '(x-y)^2', 'not squared' if kind == 'euclidean' else 'squared', nm,
+                     'squared (pow(.,2))' if cls == 'squared' else 'used as given'), F.inner_line, detail=cls)
+    # the pruning bound fed into max_dist: ub_euclidean* of the same kind, converted like a threshold
+    md = F.max_dist_expr
+    if md is not None:
+        ubs = [nm for nm, c in _calls(md) if nm.startswith('ub_euclidean') or nm.startswith('euclidean_distance')]
+        for nm in set(ubs):
+            is_e = nm.endswith('_euclidean') and nm != 'ub_euclidean'
+            ctx.check(is_e == (kind == 'euclidean'), 'R-VAR', F.file, F.name, 'pruning bound %s' % nm,
+                      'a %s kernel takes its pruning bound from %s, the bound of the other inner distance' % (kind, nm), F.inner_line)
+            is_nd = '_ndim' in nm
+            ctx.check(is_nd == ('_ndim' in F.name), 'R-VAR', F.file, F.name, 'pruning bound dimensionality %s' % nm,
+                      '%s uses %s: dimensionality mismatch' % (F.name, nm), F.inner_line)
+    # returns
+    for ev in F.epilogue.events + F.prologue.events:
+        if ev[0] != 'return' or ev[2] is None:
+            continue
+        val = ev[2]
+        path = ev[1]
+        if val == ('num', float('inf')) or val == ('num', 0):
+            ctx.held('R-DOM', '%s return %s' % (F.name, fmt(val)))
+            continue
+        if val[0] == 'call' and (dotted(val[1]) or '') == F.name + '_euclidean':
+            # top-of-function dispatch `if (settings->inner_dist == 1) return X_euclidean(same arguments)`
+            okd = len(path) == 1 and path[0][0] == 'bin' and path[0][1] == '==' and _mentions(path[0], {'inner_dist'}) and path[0][3] == ('num', 1)
+            oka = [a for a in val[2]] == [('var', p) for p in F.amap.params]
+            ctx.check(okd and oka, 'R-VAR', F.file, F.name, 'inner_dist dispatch',
+                      'the dispatch to the euclidean sibling must be `inner_dist == 1` with the arguments passed through unchanged', ev[3].line)
+            continue
+        reads = [x for x in walk_expr(val) if x[0] == 'idx' and x[1] == ('var', F.arr)]
+        is_ub = any(nm.startswith('ub_euclidean') for nm, c in _calls(val))
+        roots = [c for nm, c in _calls(val) if nm == 'sqrt']
+        if is_ub and not reads:
+            # only_ub short-cut: must be the Euclidean distance itself (result domain)
+            cls = _conv_class(val, set()) or ('squared' if any(nm == 'pow' for nm, c in _calls(val)) else 'identity')
+            sq = any(nm == 'pow' for nm, c in _calls(val))
+            ctx.check(not sq, 'R-DOM', F.file, F.name, 'only_ub return',
+                      'asking for only the upper bound returns pow(ub_euclidean(...), 2): a value of the internal (squared) domain where the '
+                      'Euclidean distance itself is the contract', ev[3].line)
+            continue
+        # DP result
+        if kind == 'squared':
+            bad = [x for x in reads if not any(x in list(walk_expr(r)) for r in roots)]
+            ok = bool(roots) and not bad
+            # psi_shortest style scalars: accept sqrt(var@...) too
+            ctx.check(ok or (bool(roots) and not reads), 'R-DOM', F.file, F.name, 'result conversion',
+                      'a squared-distance kernel must return sqrt(accumulated cost) on every DP exit; found %s' % fmt(val)[:200], ev[3].line)
+        else:
+            ctx.check(not roots, 'R-DOM', F.file, F.name, 'result conversion',
+                      'a euclidean-distance kernel accumulates costs in the result domain; its result must not be rooted again: %s' % fmt(val)[:200], ev[3].line)
+        # final over-threshold conversion: strict, result domain vs raw max_dist
+        cmpd = False
+        for x in walk_expr(val):
+            if x[0] == 'cond':
+                for c in _conj([x[1]]):
+                    if c[0] == 'bin' and c[1] in ('>', '>=', '<', '<=') and _mentions(c, {'max_dist'}):
+                        cmpd = True
+                        strict = c[1] in ('>', '<')
+                        rawside = c[3] if _mentions(c[3], {'max_dist'}) else c[2]
+                        other = c[2] if rawside is c[3] else c[3]
+                        conv = _conv_class(rawside, {'max_dist'})
+                        rooted = any(nm == 'sqrt' for nm, cc in _calls(other)) or kind == 'euclidean'
+                        ctx.check(strict, 'R-PRUNE', F.file, F.name, 'final threshold comparator',
+                                  'a result equal to max_dist must be returned, only `result > max_dist` becomes infinity', ev[3].line)
+                        ctx.check((conv == 'identity') == rooted, 'R-DOM', F.file, F.name, 'final threshold domain',
+                                  'the final comparison mixes domains: result is %s, threshold is %s' %
+                                  ('in the result domain' if rooted else 'an accumulated (squared) cost', 'max_dist as given' if conv == 'identity' else 'squared max_dist'), ev[3].line)
+        ctx.check(cmpd, 'R-PRUNE', F.file, F.name, 'final threshold conversion', 'no final `result > max_dist -> infinity` conversion on the DP exit', ev[3].line)
+    ctx.sample({'kernel': F.name, 'kind': kind, 'max_step': fmt(F.max_step_expr)[:120] if F.max_step_expr else None})
